@@ -108,7 +108,7 @@ func buildDeb(vec J) (builtDeb, error) {
 		switch s["role"].(string) {
 		case "binary":
 			members[i] = arMember{name, []byte(S(s["text"]))}
-		case "control":
+		case "control", "extra-ctl": // extra-ctl: a control-like tarball under a name the loader must not take for the control member
 			files := []tarFile{}
 			for _, fj := range L(s["files"]) {
 				f := M(fj)
@@ -130,7 +130,7 @@ func buildDeb(vec J) (builtDeb, error) {
 				return builtDeb{}, err
 			}
 			members[i] = arMember{name, data}
-		case "data":
+		case "data", "extra-dat":
 			files := []tarFile{}
 			for _, fj := range L(s["files"]) {
 				f := M(fj)
@@ -224,6 +224,11 @@ func loadOnce(b []byte, check J) (obs J, id string) {
 	for _, n := range names {
 		arNames = append(arNames, n)
 	}
+	arMeta := []interface{}{}
+	for _, n := range names {
+		e := d.ArContent[n]
+		arMeta = append(arMeta, J{"name": n, "mtime": int(e.Timestamp), "uid": int(e.OwnerID), "gid": int(e.GroupID), "mode": e.FileMode, "size": int(e.Size)})
+	}
 	files := []interface{}{}
 	for i := 0; i < 10000; i++ {
 		h, err := d.Data.Next()
@@ -243,7 +248,7 @@ func loadOnce(b []byte, check J) (obs J, id string) {
 			"Depends": B(dep), "Section": B(c.Section), "Priority": B(c.Priority), "Homepage": B(c.Homepage),
 			"Description": B(c.Description), "SourceName": B(c.SourceName())},
 		"para":        paraToJ(c.Paragraph),
-		"control_ext": d.ControlExt, "data_ext": d.DataExt, "ar_names": arNames, "tar": files}
+		"control_ext": d.ControlExt, "data_ext": d.DataExt, "ar_names": arNames, "ar_meta": arMeta, "tar": files}
 	if check != nil {
 		signer, err := d.CheckDebsig(keyring(L(check["keyring"])), check["role"].(string))
 		obs["sig"] = J{"ok": err == nil, "signer": keyName(signer)}
